@@ -25,6 +25,7 @@ from collections import deque
 from typing import TYPE_CHECKING
 
 from .._utils.time import current_time_millis, millis_to_seconds
+from ..const import _ONE_SECOND
 from .answers import (
     MULTICAST_DELAY_RANDOM_INTERVAL,
     AnswerGroup,
@@ -86,10 +87,19 @@ class MulticastOutgoingQueue:
             loop.call_at(loop.time() + millis_to_seconds(random_delay), self.async_ready)
         self.queue.append(AnswerGroup(send_after, send_before, answers))
 
-    def _remove_answers_from_queue(self, answers: _AnswerWithAdditionalsType) -> None:
+    def _remove_answers_from_queue(self, answers: _AnswerWithAdditionalsType, now: _float) -> None:
         """Remove a set of answers from the outgoing queue."""
+        cache = self.zc.cache
         for pending in self.queue:
             for record in answers:
+                if self._additional_delay:
+                    # Answers in the protected queue wait for one second to pass
+                    # since the record was last seen on the network. If it was seen
+                    # again in the meantime, the groups still queued were delayed
+                    # because of that later sighting and sending now does not serve them.
+                    entry = cache.async_get_unique(record)  # type: ignore[arg-type]
+                    if entry is not None and now - entry.created < _ONE_SECOND:
+                        continue
                 pending.answers.pop(record, None)
 
     def async_ready(self) -> None:
@@ -118,5 +128,5 @@ class MulticastOutgoingQueue:
 
         if answers:  # pragma: no branch
             # If we have the same answer scheduled to go out, remove them
-            self._remove_answers_from_queue(answers)
+            self._remove_answers_from_queue(answers, now)
             zc.async_send(construct_outgoing_multicast_answers(answers))
